@@ -364,12 +364,17 @@ def _bounded_elements(tier, seed):
         distinct.add((txt, cfg))
         key = cfg
         want_lots, want_qqs, want_whole, want_acres, stated = [], [], [], {}, {}
+        qqs_plain, qqs_all = [], []
         for e in els:
             if (e[0], key) not in single:
                 single[(e[0], key)] = parse(e[0], cfg)
             s = single[(e[0], key)]
             want_lots += s.lots
             want_qqs += s.qqs
+            if e[1] == 'all':
+                qqs_all += s.qqs
+            else:
+                qqs_plain += s.qqs
             want_whole += s.aliquots_whole
             for lot, ac in s.lot_acres.items():
                 want_acres[lot] = ac
@@ -383,7 +388,11 @@ def _bounded_elements(tier, seed):
             bad(inp, {'lots': t.lots}, {'lots': want_lots}, cls if lots_exempt else [])
             continue
         if t.qqs != want_qqs:
-            bad(inp, {'qqs': t.qqs}, {'qqs': want_qqs}, cls)
+            if cls == ['ALL written before another aliquot chain'] and t.qqs != qqs_plain + qqs_all:
+                # the recorded defect is the *position* of ALL's aliquots (reported last); anything else is a new violation
+                bad(inp, {'qqs': t.qqs}, {'qqs': want_qqs}, [])
+            else:
+                bad(inp, {'qqs': t.qqs}, {'qqs': want_qqs}, cls)
             continue
         if t.aliquots_whole != want_whole:
             bad(inp, {'aliquots_whole': t.aliquots_whole}, {'aliquots_whole': want_whole}, cls)
